@@ -3,7 +3,7 @@ import ast
 
 from ..astx import (calls_in, dotted, norm, src, iter_nodes, aliases_of, assigned_targets,
                     assigned_names, const_value, is_const, parent_chain)
-from ..lib import (call_arg, relation, truth, other, cmp_views, core, holds_region, conditions, eval_conditions, relation_tests, atom_key, expand_condition, mode_mismatch_conditions, cfg_nodes_with_call, node_calls, returns, raises, raised_class, stmt_assigns_attr,
+from ..lib import (call_arg, relation, truth, other, cmp_views, core, holds_region, conditions, path_tests, entails_empty, paths_entail_empty, eval_conditions, relation_tests, atom_key, expand_condition, mode_mismatch_conditions, cfg_nodes_with_call, node_calls, returns, raises, raised_class, stmt_assigns_attr,
                    callee_last, guard_region, find_test_nodes, compare_parts, is_name, is_self_attr, node_roots)
 from ..linear import ctext, lin, Lin, slice_bounds
 from ..loader import AnalysisError
@@ -319,16 +319,7 @@ def check_no_discard(c, f):
                 # bare re-raise: only fine if reachable solely through the exc edge of a source (nothing was read)
                 pass
             # accepted idiom: guarded by emptiness of a data variable
-            guarded = False
-            for t in g.nodes:
-                if t.kind != 'test':
-                    continue
-                txt = norm(t.ast)
-                for v in data:
-                    if txt in ("%s == b''" % v, 'not %s' % v) and n in guard_region(g, t, 'true'):
-                        guarded = True
-                    if txt in (v, "%s != b''" % v) and n in guard_region(g, t, 'false'):
-                        guarded = True
+            guarded = any(paths_entail_empty(g, n, v, skip_labels=() if n.in_handler is not None else ('exc',)) for v in data)
             # reached only via the exception edge of the source itself?
             if guarded:
                 ok_n += 1
@@ -372,5 +363,6 @@ MUTANTS = [
     ('cached-fd', 'spawnbase', "s = os.read(self.child_fd, size)", "s = os.read(self.fileno_cached, size)", 'D3'),
 ]
 PRESERVING = [
+    ('popen-buffer-first', 'popen_spawn', "        if self._read_reached_eof:\n            # We have already finished reading. Use up any buffered data,\n            # then raise EOF\n            if buf:\n                self._buf = buf[size:]\n                return buf[:size]\n            else:\n                self.flag_eof = True\n                raise EOF('End Of File (EOF).')\n", "        if buf and (self._read_reached_eof or len(buf) >= size):\n            self._buf = buf[size:]\n            return buf[:size]\n        if self._read_reached_eof:\n            self.flag_eof = True\n            raise EOF('End Of File (EOF).')\n"),
     ('empty-test-not', 'spawnbase', "        if s == b'':\n            # BSD-style EOF", "        if not s:\n            # BSD-style EOF"),
 ]
